@@ -389,19 +389,19 @@ def match_known(prop, signature, known):
             continue
         if prop not in kf.get("properties", []):
             continue
-        sig = kf.get("signature", {})
-        ok = True
-        for k, v in sig.items():
-            sv = signature.get(k)
-            if isinstance(v, list):
-                if sv not in v:
+        for sig in kf.get("signatures") or [kf.get("signature", {})]:  # "signatures": alternative faces of one root cause
+            ok = True
+            for k, v in sig.items():
+                sv = signature.get(k)
+                if isinstance(v, list):
+                    if sv not in v:
+                        ok = False
+                        break
+                elif sv != v:
                     ok = False
                     break
-            elif sv != v:
-                ok = False
-                break
-        if ok:
-            return kf
+            if ok:
+                return kf
     return None
 
 
